@@ -23,8 +23,11 @@ SrcPaths == { <<Step("A")>>, <<Step("A2")>>, <<Step("B")>>, <<Step("N")>>, <<Ste
               \* a getter with a pointer receiver on a member (addressable) and on another getter's result (not)
               <<Step("N"), Call("Pw")>>, <<Call("N3"), Call("Pw")>>, <<Call("N3"), Step("X")>> }
 ConvSrc  == { <<Step("A")>>, <<Step("B")>>, <<Step("N")>>, <<Step("N"), Step("X")>>, <<Call("Gi")>>, <<Call("Ge")>>, <<Step("Nope")>> }
-DollarPaths == { <<Dollar(1), Step("A")>>, <<Dollar(2)>>, <<Dollar(2), Step("X")>>, <<Dollar(3)>>, <<Dollar(9)>>, <<Dollar(2), Step("Nope")>> }
-ArgSets == { <<"int">>, <<"ArgS">>, <<"int", "string">> }
+DollarPaths == { <<Dollar(1), Step("A")>>, <<Dollar(2)>>, <<Dollar(2), Step("X")>>, <<Dollar(3)>>, <<Dollar(9)>>, <<Dollar(2), Step("Nope")>>,
+                 \* indices of two digits: $10 is the ninth additional argument, $12 the eleventh
+                 <<Dollar(10)>>, <<Dollar(11), Step("X")>>, <<Dollar(12)>>, <<Dollar(20)>> }
+ArgSets == { <<"int">>, <<"ArgS">>, <<"int", "string">>,
+             <<"string", "string", "string", "string", "string", "string", "string", "string", "int", "ArgS", "int">> }
 
 \* ---- destination paths
 DstPaths(d) == PathsBelow(<< >>, d, 3)
